@@ -13,49 +13,49 @@ CHECKS = {
                 text="Generated-input search: ~24k (quick) / 400k (thorough) operation histories x hash plans x capacity histories on both scanner back-ends, every step compared with an association-list model and validated structurally (tag + probe reachability of every slot). Refutes, never proves; coverage classes are measured and reported.",
                 ref="9.1"),
     "C03": dict(cat="exploration", tech="stateful PBT with per-element life-cycle ledger and allocation ledger (tracked elements, checking allocator)",
-                text="Generated histories over HashMap and HashTable with tracked elements; every owning iterator is cut at a generated point; a registry records construct/clone/drop per element serial and the checking allocator every allocate/deallocate with its layout. Double drops, leaks, layout mismatches and blocks left over are reported per step and at the end of each case.",
+                text="Generated histories over HashMap, HashSet, HashTable and the tracked element layouts (incl. a zero-sized type with drop glue) with tracked elements; every owning iterator is cut at a generated point; a collection created with capacity 0 must own no block until an operation could have given it an element or a capacity; a registry records construct/clone/drop per element serial and the checking allocator every allocate/deallocate with its layout. Double drops, leaks, layout mismatches and blocks left over are reported per step and at the end of each case.",
                 ref="9.3"),
     "C04": dict(cat="fault_enumeration", tech="fault injection: for each generated (state, operation) every k-th invocation of every callback class panics; validity oracle after unwind",
-                text="Fault enumeration: for each generated history the target operations (the generated step plus steps that rehash in place or resize) are re-run once per (callback class, k) for every k up to the number of invocations observed fault-free (all k <= 64, geometric sample above). After the unwind the collection must validate structurally, len() must equal what it yields and finds, lost elements must be dropped exactly once, and a hasher panic during growth into a new block must leave contents unchanged.",
+                text="Fault enumeration on HashMap, HashSet (two sets, operators, algebra) and HashTable programs: for each generated history the target operations (the generated step plus steps that rehash in place or resize) are re-run once per (callback class, k) for every k up to the number of invocations observed fault-free (all k <= 64, geometric sample above). After the unwind the collection must validate structurally, len() must equal what it yields and finds, lost elements must be dropped exactly once, and a hasher panic during growth into a new block must leave contents unchanged.",
                 ref="9.4"),
     "C05": dict(cat="exploration", tech="stateful PBT with answer tapes for Hash/Eq (inconsistent implementations); safety-subset oracle",
-                text="Histories under 8 modes of broken Hash/Eq driven by tapes stored in the case; only safety is judged: structure validator, checking allocator, element ledger, len()==yielded count, watchdog.",
+                text="HashMap, two-HashSet and HashTable histories under 8 modes of broken Hash/Eq (for tables: broken caller-side hasher / eq closures) driven by tapes stored in the case, Index under catch_unwind; only safety is judged: structure validator, checking allocator, element ledger, len()==yielded count, watchdog.",
                 ref="9.5"),
     "C06": dict(cat="exploration", tech="model-based stateful PBT of the explicit-hash HashTable API vs multiset model",
                 text="Histories over HashTable with caller-supplied hashes (collisions in position, tag or both, exact duplicates), every step compared with a multiset model keyed by a unique id per inserted element; iter_hash superset/no-duplicate predicate; structure validator incl. probe reachability.",
                 ref="9.6"),
     "C09": dict(cat="exploration", tech="PBT over (state, iterator kind, switch-over prefix, continuation) with exact-length oracle",
-                text="Every iterator kind of HashMap and HashTable is driven from generated states with a generated prefix and continuation (next/fold/for_each/clone/count/drop); size_hint and len checked at every step, yielded multiset compared with the model.",
+                text="Every iterator kind of HashMap, HashSet (incl. the algebra iterators) and HashTable, also through IntoIterator for & / &mut, is driven from generated states with a generated prefix and continuation (next/fold/for_each/clone/count/drop); size_hint and len checked at every step, yielded multiset compared with the model; a few cases per run hold 65 536 .. 136 000 elements (counting statements).",
                 ref="9.9"),
     "C10": dict(cat="exploration", tech="PBT over (state, predicate subset, predicate mutation, early-drop point) vs model subset semantics",
-                text="retain / extract_if / drain on HashMap and HashTable from generated states with generated subsets and cut points; predicate call multiset, yielded items, survivors, mutations and allocation retention are compared with the model.",
+                text="retain / extract_if / drain on HashMap, HashSet, HashTable and the element-layout family (zero-sized, over-aligned; extract_if answers by call index) from generated states with generated subsets and cut points; predicate call multiset, yielded items, survivors, mutations and allocation retention are compared with the model; drains are dropped early or consumed by next / fold / for_each / count; a few cases per run hold more than 2^16 elements (predicate call counts).",
                 ref="9.10"),
     "C11": dict(cat="exploration", tech="metamorphic PBT over pairs of histories: clone/clone_from/== relations + independence via two models",
-                text="Two map slots with independent histories, capacities and hash plans; clone, clone_from (all relative bucket counts, tombstoned targets), == in both directions, mirrored contents through different histories; both maps keep being compared with their own models afterwards.",
+                text="Two map slots (also two HashSets, a HashTable, and the tracked element layouts incl. the zero-sized one) with independent histories, capacities and hash plans; clone, clone_from (all relative bucket counts, tombstoned targets), == in both directions, mirrored contents through different histories; both keep being compared with their own models afterwards; == also with the same object on both sides and with values whose == is never true; a clone must call Clone::clone once per non-Copy value.",
                 ref="9.11"),
     "C13": dict(cat="exploration", tech="long-history PBT with bounded live size: allocation bound + EMPTY-slot invariant + watchdog",
-                text="Long capped churn histories under all hash plans and five removal patterns; allocation_size() must stay below with_capacity(4 x peak live); structural invariant V2 (an EMPTY slot exists, growth_left cannot consume the last) after every step; watchdog on every operation.",
+                text="Long capped churn histories under all hash plans, six removal patterns, bulk removals and clone-and-continue (HashMap), plus HashTable programs with lookups / iter_hash of absent hashes on tombstone-saturated tables; allocation_size() must stay below with_capacity(4 x peak live); an insert into a table at most half full of live elements must not enlarge it; structural invariant V2 (an EMPTY slot exists, growth_left cannot consume the last) after every step; watchdog on every operation.",
                 ref="9.13"),
     "C14": dict(cat="exploration", tech="differential PBT: entry-style API chains vs plain get/insert/remove on the model, biased to full load",
                 text="entry, entry_ref, raw_entry(_mut) via from_key/from_key_hashed_nocheck/from_hash, rustc_entry: discriminant, return values and effects of method chains compared with the model from states biased to growth_left==0, tombstones and the singleton.",
                 ref="9.14"),
-    "C02": dict(cat="exploration", tech="PBT over safe-API programs x 19 element layouts x object life cycles (drop / mem::forget), monitored by a guarded checking allocator, reference validation, structure validator and debug/UB-precondition assertions",
-                text="Generated programs over HashTable/HashSet/HashMap for 19 (size, align) element layouts incl. zero-sized, over-aligned, 200-byte and tracked ones; iterators, drains, extract_ifs, entries are advanced j steps then dropped or forgotten and the collection keeps being used. Out-of-bounds writes hit red zones, freed blocks are poisoned and quarantined, every reference is checked for alignment, membership in the data part of the live block and an element self-check; runner crashes are captured and minimised.",
+    "C02": dict(cat="exploration", tech="PBT over safe-API programs x 20 element layouts x object life cycles (drop / mem::forget), monitored by a guarded checking allocator, reference validation, structure validator and debug/UB-precondition assertions",
+                text="Generated programs over HashTable/HashSet/HashMap for 20 (size, align) element layouts incl. zero-sized (with and without drop glue), over-aligned, 200-byte and tracked ones; iterators, drains, extract_ifs, entries are advanced j steps then dropped or forgotten and the collection keeps being used. Out-of-bounds writes hit red zones, freed blocks are poisoned and quarantined, every reference is checked for alignment, membership in the data part of the live block and an element self-check; runner crashes are captured and minimised.",
                 ref="9.2"),
     "C07": dict(cat="exploration", tech="PBT over pairs of set histories vs mathematical sets (BTreeSet), size_hint bound checks",
                 text="Two HashSets with independent histories/capacities/hash plans: union, intersection, difference, symmetric_difference (next/fold/clone, size_hint bounds at every step), predicates and ==, operator and assigning forms, replace/take/get_or_insert/get_or_insert_with (incl. refused non-equivalent value)/entry, compared with BTreeSet results as multisets.",
                 ref="9.7"),
     "C08": dict(cat="exploration", tech="PBT over (state, n, m, layout, collection kind) with a counting allocator and the capacity inequalities of the statement",
-                text="States from histories x n, m on and around the 7/8*2^k and 2^k boundaries x 19 layouts x table/set/map: capacity>=len, reserve/with_capacity lower bounds, zero allocator calls while inserting capacity()-len() fresh keys, zero calls for new/default/with_capacity(0) (counting global allocator), clear/drain keep the block, allocation_size()==ledger bytes, the shrink inequalities incl. comparison with a fresh with_capacity(max(len,m)).",
+                text="States from histories x n, m on and around the 7/8*2^k and 2^k boundaries x 20 layouts x table/set/map: capacity>=len, reserve/with_capacity lower bounds, zero allocator calls while inserting capacity()-len() fresh keys, zero calls for new/default/with_capacity(0) (counting global allocator), clear/drain keep the block, allocation_size()==ledger bytes, the shrink inequalities incl. comparison with a fresh with_capacity(max(len,m)); by-reference Extend of keys that fit must not allocate; a few cases per run use tables of 2^16 .. 2^18 buckets.",
                 ref="9.8"),
     "C12": dict(cat="exploration", tech="PBT over (state, additional on arithmetic boundaries, layout, allocator behaviour) with a result trichotomy and nothing-changed snapshot",
-                text="try_reserve from generated states with `additional` on every arithmetic boundary, for 19 layouts and 3 collection kinds, against an allocator that grants, refuses the j-th request or refuses above a limit; Ok / CapacityOverflow / AllocError(refused layout) trichotomy, never a panic, valid layouts only, and on Err nothing changed and nothing leaked.",
+                text="try_reserve from generated states with `additional` on every arithmetic boundary, for 20 layouts and 3 collection kinds, against an allocator that grants, refuses the j-th request, refuses above a limit, or hands out blocks longer than requested; Ok / CapacityOverflow / AllocError(refused layout) trichotomy, never a panic, valid layouts only, and on Err nothing changed and nothing leaked.",
                 ref="9.12"),
     "C16": dict(cat="exploration", tech="exhaustive generation of client programs (type x witness types x obligation; borrow misuse; covariant coercions), rustc as executor, each rejecting program paired with an accepting control twin",
                 text="About 7.4k generated single-obligation programs over every public type of hash_map, hash_set, hash_table and the rayon adaptors: auto-trait obligations under every assignment of {Send+Sync, Send-only, Sync-only, neither} witness types that violates a hand-written access-requirement table must be rejected (E0277) while the all-Send+Sync twin is accepted; covariant coercions through writing types must be rejected; results of every borrowing method used after mutate/drop/move of the collection must be rejected while the control twin compiles. The type checker is universal over the generic parameters for the witness lattice used; the inventory and the table are hand-written (new public types are reported).",
                 ref="9.16", note="Trusted base: rustc's type and borrow checker, the hand-written access-requirement table (DESIGN Appendix A) and inventory of public types."),
     "C19": dict(cat="exploration", tech="PBT over (occupancy pattern, parallel operation, pool size, early-stop point) on real rayon pools + hook-driven explicit split trees, with an atomic per-element drop/delivery ledger",
-                text="Generated occupancy patterns on map/sets/table of atomically tracked elements; every par_* adaptor on pools of 1..64 threads, fully consumed or stopped early; explicit split trees through hooks for RawIterRange::split (leaves must partition the FULL buckets) and ParDrainProducer (split / fold with a folder that fills up / drop). Delivered multiset == contents; every element dropped exactly once; collection empty, valid and usable after par_drain.",
+                text="Generated occupancy patterns on map/sets/table of atomically tracked elements; every par_* adaptor on pools of 1..64 threads, fully consumed, stopped early or never driven; par_extend / from_par_iter with repeated keys carrying their input position, by value and by reference, into empty and non-empty targets; par_eq on perturbed clones; explicit split trees through hooks for RawIterRange::split (leaves must partition the FULL buckets) and ParDrainProducer (split / fold with a folder that fills up / drop). Delivered multiset == contents; every element dropped exactly once; collection empty, valid and usable after par_drain.",
                 ref="9.19"),
     "C17": dict(cat="exploration", tech="exhaustive + boundary + seeded-random enumeration of the arithmetic functions through hooks vs independent u128 arithmetic",
                 text="capacity_to_buckets, bucket_mask_to_capacity, calculate_layout_for, TableLayout::new and the probe sequence are evaluated through read-only hooks on both group widths over exhaustive low ranges, +-4096 (quick) / +-65536 (thorough) neighbourhoods of every 2^k and 7/8*2^k up to usize::MAX, extreme (size, align) pairs and seeded random 64-bit inputs; exhaustive only in the stated ranges.",
@@ -64,10 +64,10 @@ CHECKS = {
                 text="Every generated map/table case runs on both back-ends; both must satisfy the model at every step and produce identical per-step digests of (len, sorted contents). The scanner primitives are compared with their bytewise definitions on all 2^16 values of every adjacent byte pair in several background groups plus random groups.",
                 ref="9.18"),
     "C20": dict(cat="exploration", tech="PBT over (entry stream with duplicates, claimed size hint, error position, format) with round-trip, last-wins model and allocation ledger",
-                text="serde_json round trips and serde value deserializers over lying iterators for maps and sets of tracked elements: equality after round trip, last value wins, errors returned with every built element dropped once and nothing left allocated, reservation before the first read bounded by with_capacity(4096), deserialize_in_place clears first.",
+                text="serde_json round trips and serde value deserializers over lying iterators (hints: none, exact, understated, overstated, huge) for maps and sets of tracked elements and of (), u8, u64, bool, String elements: equality after round trip, last value wins, errors returned with every built element dropped once and nothing left allocated, reservation before the first read bounded by with_capacity(4096), deserialize_in_place clears first.",
                 ref="9.20"),
     "C15": dict(cat="exploration", tech="PBT over (state, N, key tuples) with pointer-distinctness and write-through oracle",
-                text="get_many_mut / get_many_key_value_mut (HashMap) and get_many_mut (HashTable, closures that may match several entries): panic iff two requests name one entry, distinct addresses, right targets, sentinels land in the model's entries.",
+                text="get_many_mut / get_many_key_value_mut (HashMap) and get_many_mut (HashTable, closures that may match several entries) for N in 0..=4, 9, 12, and on the element-layout family (zero-sized, over-aligned) with N = 1, 2: panic iff two requests name one entry, distinct addresses, right targets, sentinels land in the model's entries.",
                 ref="9.15"),
 }
 
